@@ -26,7 +26,7 @@ ASSUMPTIONS = ['one globally activated fake connection on the real Dispatcher; v
 
 N_EXAMPLES = {'quick': 1000, 'thorough': 15000}
 KINDS = ['int', 'double', 'string', 'enum', 'struct', 'array', 'scaled']
-VALUES = {'int': [0, 1, 1, 2, 3], 'double': [0.0, 1.5, 1.5, 2.25, 1], 'string': ['', 'a', 'a', 'bc'], 'enum': [0, 1, 1, 2, 'b'],
+VALUES = {'int': [0, 1, 1, 2, 3], 'double': [0.0, 1.5, 1.5, 2.25, 0.3, 0.1 + 0.2, 1.5000000001, 1], 'string': ['', 'a', 'a', 'bc'], 'enum': [0, 1, 1, 2, 'b'],
           'struct': [{'x': 0, 'y': 0.0}, {'x': 1, 'y': 0.5}, {'x': 1, 'y': 0.5}, {'x': 2, 'y': 0.0}], 'array': [[], [1], [1], [1, 2], (1, 2)],
           'scaled': [0.0, 0.5, 0.5, 1.2, 0.52]}     # (the last of each list is a non-canonical form of an allowed value)
 INVALID = {'int': ['x', 1.5, None], 'double': ['x', None, [1]], 'string': [5, None], 'enum': [9, 'zz', None], 'struct': [{'x': 'a', 'y': 0.0}, 5, {'zz': 1}],
